@@ -1,5 +1,7 @@
 package engine
 
+import "fmt"
+
 // Registry lists, per property, the harnesses that decide it.
 var Registry = map[string]Check{}
 
@@ -56,4 +58,45 @@ func init() {
 			{Pkg: "jpeg/lossless", Fn: "VerifC13Headers", Desc: "conformant 1x1 stream built in the harness with symbolic table destinations Td in 0..3 per component and symbolic Ss in 1..7, decoded by the real Decode",
 				Bounds: [2]string{"1 and 3 components", "same"}},
 		}})
+
+	c08win := func(pkg, label string, q, t map[string]int64, bq, bt string, onlyTier int, extra ...string) Harness {
+		return Harness{Pkg: pkg, Fn: "VerifC08Window", Label: label, AllocCut: 48, FloatHavoc: true, Params: [2]map[string]int64{q, t}, Bounds: [2]string{bq, bt}, OnlyTier: onlyTier, Assumptions: extra,
+			Desc: "a valid stream produced by the real encoder in which a window of k consecutive bytes is replaced by symbolic bytes (optionally truncated after the window), through the package's Decode; every automatic panic obligation (index, slice, nil, divide, shift, make, type assertion, explicit panic) is a property violation"}
+	}
+	var c08 []Harness
+	for _, pk := range []string{"jpeg/lossless", "jpeg/lossless14sv1", "jpeg/baseline", "jpeg/extended"} {
+		kq, kt := 2, 3
+		if pk == "jpeg/baseline" || pk == "jpeg/extended" {
+			kq, kt = 1, 2
+		}
+		c08 = append(c08,
+			func() Harness {
+				h := c08win(pk, pk+":headers", P("k", kq, "region", 1), P("k", kt, "region", 1), fmt.Sprintf("every header position, k=%d", kq), fmt.Sprintf("every header position, k=%d", kt), 0)
+				if pk == "jpeg/extended" {
+					// float IDCT on symbolic tables: minutes per position; thorough tier only
+					h.OnlyTier = 2
+					h.Params[1] = P("k", 1, "region", 1)
+					h.Bounds[1] = "every header position, k=1 (within the wall budget; positions not reached are listed under not_discharged)"
+				}
+				return h
+			}(),
+			c08win(pk, pk+":scan", P("k", 1, "region", 2, "scanpos", 3), P("k", 2, "region", 2, "scanpos", 6), "first 3 entropy-coded positions, k=1", "first 6 entropy-coded positions, k=2", 0),
+			Harness{Pkg: pk, Fn: "VerifC08Free", Label: pk + ":free", AllocCut: 48, Params: [2]map[string]int64{P("n", 6), P("n", 9)}, Bounds: [2]string{"SOI + 6 symbolic bytes", "SOI + 9 symbolic bytes"}, Desc: "start marker followed by N fully symbolic bytes"})
+	}
+	lsCut := "under the engine the sample loops (decodeComponent / decodeSampleInterleaved) are replaced by no-ops in the header-window harness: parameter derivation from corrupted headers is real, scan decoding with corrupted headers is outside the claim"
+	for _, pk := range []string{"jpegls/lossless", "jpegls/nearlossless"} {
+		c08 = append(c08,
+			c08win(pk, pk+":headers", P("k", 2, "region", 1), P("k", 3, "region", 1), "every header position, k=2", "every header position, k=3", 0, lsCut),
+			c08win(pk, pk+":scan", P("k", 1, "region", 2, "scanpos", 1), P("k", 1, "region", 2, "scanpos", 2), "-", "first 2 entropy-coded positions, k=1", 2),
+			Harness{Pkg: pk, Fn: "VerifC08Free", Label: pk + ":free", AllocCut: 48, Params: [2]map[string]int64{P("n", 6), P("n", 9)}, Bounds: [2]string{"SOI + 6 symbolic bytes", "SOI + 9 symbolic bytes"}, Desc: "start marker followed by N fully symbolic bytes"})
+	}
+	c08 = append(c08,
+		Harness{Pkg: "jpeg2000", Fn: "VerifC08ParserWindow", AllocCut: 64, Params: [2]map[string]int64{P("k", 2), P("k", 3)}, Bounds: [2]string{"every position of two valid codestreams, k=2", "k=3"}, Desc: "codestream.Parser.Parse on a valid codestream with a k-byte symbolic window / truncation"},
+		Harness{Pkg: "jpeg2000", Fn: "VerifC08Window", Label: "jpeg2000:packetdata", AllocCut: 64, Params: [2]map[string]int64{P("k", 1, "region", 2, "scanpos", 2), P("k", 2, "region", 2, "scanpos", 4)}, Bounds: [2]string{"first 2 bytes after SOD, k=1", "first 4 bytes after SOD, k=2"}, Desc: "jpeg2000.Decoder.Decode (tile decoder, packet headers, T1/MQ) with symbolic bytes at the start of the packet data; main-header corruption through the full decoder is outside the claim (covered for the parser)"},
+		Harness{Pkg: "jpeg2000/codestream", Fn: "VerifC08ParserFree", AllocCut: 48, Params: [2]map[string]int64{P("n", 8), P("n", 12)}, Bounds: [2]string{"SOC + 8 symbolic bytes", "SOC + 12 symbolic bytes"}, Desc: "SOC followed by N fully symbolic bytes through Parse"},
+		Harness{Pkg: "jpeg2000/codestream", Fn: "VerifC08ParserSIZ", AllocCut: 48, Params: [2]map[string]int64{P("tail", 4), P("tail", 8)}, Bounds: [2]string{"SIZ for 1-2 components fully symbolic + 4 bytes", "+ 8 bytes"}, Desc: "SOC, SIZ with concrete length and fully symbolic payload, then symbolic bytes"},
+		Harness{Pkg: "rle", Fn: "VerifC08RLE", AllocCut: 64, Params: [2]map[string]int64{P("hdr", 1, "data", 3), P("hdr", 2, "data", 3)}, Bounds: [2]string{"10 frame descriptions x symbolic segment count + 3 data bytes + truncations", "+ symbolic first offset"}, Desc: "rle.Codec.Decode with frame descriptions covering zero fields / BitsAllocated 0 and 65535 / >15 planes, symbolic header words and data"},
+	)
+	reg(Check{Property: "C08", Harnesses: c08,
+		Assumptions: []string{"allocation cut: after a make() with a symbolic size the path continues under size <= 48 (64 for JPEG 2000/RLE) elements; larger declared sizes are outside the C08 claim", "inputs are the stated templates: a valid stream with one symbolic window, or a short free string; arbitrary long inputs are outside the claim"}})
 }
